@@ -113,7 +113,8 @@ def ob_ninja_order():
     def h():
         nb = M.nb
         from harness.c03 import Out
-        deps = [sym_str(1, 'd%d' % i, alphabet='abc') for i in range(2)] + ['x', 'b']
+        # two spellings of one file (a, ./a) and a symbolic 3-character path: a writer that merges deps 'up to normalisation' must not let the survivor depend on the order
+        deps = [sym_str(3, 'd0', alphabet='a./'), sym_str(1, 'd1', alphabet='ab'), 'a', './a']
         od = ['o2', 'o1', sym_str(1, 'o', alphabet='ab')]
 
         def write(order_d, order_o):
@@ -121,7 +122,14 @@ def ob_ninja_order():
             for i in order_d: e.add_dep(deps[i])
             for i in order_o: e.add_orderdep(od[i])
             o = Out(); e.write(o); return o.text()
-        a = write([0, 1, 2, 3], [0, 1, 2]); b = write(permutation(4, 'pd'), permutation(3, 'po'))
+        had = nb.__dict__.get('set', None)
+        if concrete(): nb.set = IOSet            # native replay: insertion-ordered stand-in = an adversarial hash order (see env-hash-order)
+        try:
+            a = write([0, 1, 2, 3], [0, 1, 2]); b = write(permutation(4, 'pd'), permutation(3, 'po'))
+        finally:
+            if concrete():
+                if had is None: del nb.set
+                else: nb.set = had
         check(len(a) == len(b) and decide(bt_any(eq(a, b))), 'the build statement text does not depend on the order dependencies were added in')
         cover('done')
     return h
@@ -218,7 +226,7 @@ def ob_env_hash():
 def obligations(tier):
     return [Obligation('replace-if-different', ob_replace(), dict(old='absent | 0-2 chars over a b newline', new='0-2 chars'), labels=('kept', 'replaced')),
             Obligation('buildoptions-order', ob_buildoptions(), dict(options='b_lto b_ndebug b_pie, symbolic values', insertion_order='every permutation'), labels=('done',)),
-            Obligation('ninja-deps-order', ob_ninja_order(), dict(deps='4 (2 symbolic)', orderdeps='3 (1 symbolic)', insertion_order='every permutation of both'), labels=('done',), max_paths=2000000),
+            Obligation('ninja-deps-order', ob_ninja_order(), dict(deps='4: a, ./a, one symbolic of 3 chars over a . /, one of 1 char', orderdeps='3 (1 symbolic)', insertion_order='every permutation of both'), labels=('done',), max_paths=2000000),
             Obligation('optionkey-order', ob_optionkey_order(), dict(keys='2: name 1 char over abc, subproject None | "" | a | b, machine host | build'), labels=('done',)),
             Obligation('env-hash-order', ob_env_hash(), dict(variables='2 set + 2 unset, distinct symbolic names', order='every permutation'), labels=('done',)),
             Obligation('unique-list', ob_ordered(), dict(elements='1-4 symbolic'), labels=('done',))]
